@@ -93,6 +93,32 @@ impl Drop for Tok {
     }
 }
 
+/// Q1: a conditional pop that keeps losing the race for the head: the victim is parked in front
+/// of its head CAS, a rival pops the head, the victim retries, `r` times in a row. The queue is
+/// never empty and the predicate always holds, so the only admissible answer is an element.
+pub fn queue_starvation_strategy() -> BoxedStrategy<Value> {
+    (0u32..20, 0u8..3, any::<bool>(), 1u32..3)
+        .prop_map(|(r, extra_pushers, victim_plain_pop, nth)| {
+            let victim = vec![QOp { k: if victim_plain_pop { QK::TryPop } else { QK::TryPopIf }, a: 16 }];
+            let rival: Vec<QOp> = (0..r).map(|_| QOp { k: QK::TryPop, a: 0 }).collect();
+            let mut threads = vec![victim, rival];
+            for _ in 0..extra_pushers {
+                threads.push(vec![QOp { k: QK::Push, a: 0 }, QOp { k: QK::Push, a: 0 }]);
+            }
+            let mut sched = Vec::new();
+            for i in 0..r {
+                sched.push(Directive { thread: 0, until: Until::Site { site: site::RAW_CAS, nth: if i == 0 { nth } else { 1 }, ops: 1 } });
+                sched.push(Directive { thread: 1, until: Until::OpIndex(i + 1) });
+                if extra_pushers > 0 && i % 4 == 1 {
+                    sched.push(Directive { thread: 2, until: Until::Ops(1) });
+                }
+            }
+            sched.push(Directive { thread: 0, until: Until::End });
+            serde_json::to_value(QCase { prefill: 24, threads, sched }).unwrap()
+        })
+        .boxed()
+}
+
 #[derive(Clone, Debug)]
 struct QRec {
     thread: usize,
